@@ -119,7 +119,22 @@ func (e *Exec) callWith(fr *frame, st *State, x *ssa.Call, c *ssa.CallCommon, fn
 	}
 	// a function-typed value of unknown origin (e.g. a parameter): it may do anything to the heap
 	e.trusted("calls through function-typed values of unknown origin havoc the whole heap and return arbitrary values")
+	// ghost call log of the function value: how often it has been called, and what the last call returned
+	var fterm Term
+	haveF := false
+	if ft, ok := fnv.(Term); ok && e.spec == 0 && e.quant == 0 {
+		fterm, haveF = ft, true
+	}
+	var oldCalls Term
+	if haveF {
+		e.ghostSorts["ghost_fcalls"] = SInt
+		oldCalls = e.smt.define("fcalls", tSelect(e.heapComp(st, "G.ghost_fcalls", SInt, arraySort(SInt, SInt)), fterm, SInt))
+	}
 	e.havocAllHeap(st)
+	if haveF {
+		arr := e.heapComp(st, "G.ghost_fcalls", SInt, arraySort(SInt, SInt))
+		e.setHeap(st, "G.ghost_fcalls", tStore(arr, fterm, tAdd(oldCalls, tInt(1))))
+	}
 	if e.topCt != nil && e.depth <= 1 {
 		for _, cl := range e.topCt.CallbackInv {
 			if g, ok := e.evalSpec(st, e.topCt.PkgPath, cl.GenFn, e.topArgs, st); ok {
@@ -128,7 +143,15 @@ func (e *Exec) callWith(fr *frame, st *State, x *ssa.Call, c *ssa.CallCommon, fn
 			}
 		}
 	}
-	return e.freshOf(st, "dyn", resType), true
+	res := e.freshOf(st, "dyn", resType)
+	if haveF {
+		if rt, ok := res.(Term); ok && rt.Sort == SBool {
+			e.ghostSorts["ghost_flastRet"] = SBool
+			arr := e.heapComp(st, "G.ghost_flastRet", SInt, arraySort(SInt, SBool))
+			e.setHeap(st, "G.ghost_flastRet", tStore(arr, fterm, rt))
+		}
+	}
+	return res, true
 }
 
 func wrapResults(vs []Value, sig *types.Signature) Value {
